@@ -200,7 +200,8 @@ Record inv (pre : list op) (st : rstate) : Prop := {
                        | None => None end;
   inv_nodup : NoDup (names st);
   inv_pf : pfails st = [];
-  inv_res : residue st = [] }.
+  inv_res : residue st = [];
+  inv_pend : pending st = [] }.
 
 Lemma inv_init : inv [] rinit.
 Proof. split; try reflexivity. constructor. Qed.
@@ -213,7 +214,9 @@ Qed.
 
 Lemma inv_step pre st o : plain_op o = true -> inv pre st -> inv (pre ++ [o]) (step st o).
 Proof.
-  intros Hplain [Hm Hp Hs Hf Hn Hpf Hres].
+  intros Hplain [Hm Hp Hs Hf Hn Hpf Hres Hpend].
+  assert (Hwait : forall x, waiting st x = unstarted x).
+  { intros x. unfold waiting, is_pending, pending_of. rewrite Hpend. simpl. apply andb_true_r. }
   assert (Hsame : forall o', is_start o' = false -> (forall n, is_add n o' = false) ->
             forall n, match spec_cfg n (pre ++ [o']) with
                       | Some h => Some (HS h (spec_started n (pre ++ [o']))) | None => None end
@@ -225,7 +228,7 @@ Proof.
   assert (Hr : forall o', regs_of (pre ++ [o']) = regs_of pre ++ regs_of [o']) by (intros; apply flat_map_app).
   assert (Hpd : forall o', pdecs_of (pre ++ [o']) = pdecs_of pre ++ pdecs_of [o']) by (intros; apply flat_map_app).
   assert (Hsd : forall o', sdecs_of (pre ++ [o']) = sdecs_of pre ++ sdecs_of [o']) by (intros; apply flat_map_app).
-  destruct o as [h|id app|hn id app|dd ff|dd ff| |sn|dl]; simpl.
+  destruct o as [h|id app|hn id app|dd ff|dd ff| | |pn|sn|dl]; simpl.
   - (* AddHandler *)
     destruct (find_handler (h_name h) st) eqn:F.
     + split; simpl; try assumption.
@@ -265,13 +268,13 @@ Proof.
     + split; simpl; try assumption; try reflexivity;
         [now rewrite Hr, app_nil_r | now rewrite Hpd, app_nil_r | now rewrite Hsd, app_nil_r | | ].
       * intros n. unfold find_handler. simpl. rewrite find_map_inv.
-        2:{ intros x. unfold name_is, start_one. now destruct (hs_started x). }
+        2:{ intros x. unfold name_is, start_one. now destruct (waiting st x). }
         fold (find_handler n st). rewrite Hf, spec_cfg_snoc, spec_started_snoc, spec_cfg_existsb. simpl.
-        destruct (spec_cfg n pre) eqn:E; [|reflexivity]. simpl. unfold start_one. simpl.
+        destruct (spec_cfg n pre) eqn:E; [|reflexivity]. simpl. unfold start_one. rewrite Hwait. unfold unstarted. simpl.
         destruct (spec_started n pre); [reflexivity|]. unfold residue_of. rewrite Hres. simpl.
         now rewrite app_nil_r, Hm, Hp, Hs.
       * unfold names. simpl. rewrite map_map.
-        erewrite map_ext; [exact Hn|]. intros x. unfold hname, start_one. now destruct (hs_started x).
+        erewrite map_ext; [exact Hn|]. intros x. unfold hname, start_one. now destruct (waiting st x).
     + (* nobody waits: the declarative reading agrees, nobody is started by this Start *)
       split; simpl; try assumption;
         [now rewrite Hr, app_nil_r | now rewrite Hpd, app_nil_r | now rewrite Hsd, app_nil_r | ].
@@ -280,7 +283,9 @@ Proof.
       destruct (spec_started n pre) eqn:Es; [reflexivity|]. exfalso.
       specialize (Hf n). rewrite E, Es in Hf. unfold find_handler in Hf.
       apply find_some in Hf as [Hin _]. unfold first_unstarted in Fu.
-      apply (find_none _ _ Fu) in Hin. discriminate.
+      apply (find_none _ _ Fu) in Hin. rewrite Hwait in Hin. discriminate.
+  - discriminate.
+  - discriminate.
   - discriminate.
   - split; simpl; try assumption; [now rewrite Hr, app_nil_r | now rewrite Hpd, app_nil_r | now rewrite Hsd, app_nil_r | ].
     intros n. symmetry. now apply Hsame.
@@ -304,16 +309,26 @@ Proof.
   rewrite <- E. now apply in_map.
 Qed.
 
+Lemma hname_start_one st x : hname (start_one st x) = hname x.
+Proof. unfold hname, start_one. now destruct (waiting st x). Qed.
+Lemma hname_snap_one st n decs x : hname (snap_one st n decs x) = hname x.
+Proof. unfold hname, snap_one. now destruct (name_is n x && unstarted x). Qed.
+
 Lemma step_nodup st o : NoDup (names st) -> NoDup (names (step st o)).
 Proof.
-  intros Hn. destruct o as [h|id app|hn id app|dd ff|dd ff| |sn|dl]; simpl; try assumption.
+  intros Hn. destruct o as [h|id app|hn id app|dd ff|dd ff| | |pn|sn|dl]; simpl; try assumption.
   - destruct (find_handler (h_name h) st) eqn:F; [assumption|]. unfold names. simpl. rewrite map_app. simpl.
     apply NoDup_app_one; [assumption|]. now apply find_none_not_in.
   - destruct (first_unstarted st); [|assumption].
     destruct (first_failing st (rev (pubdecs st))); [assumption|].
     destruct (first_failing st (subdecs st)); [assumption|].
     unfold names. simpl. rewrite map_map.
-    erewrite map_ext; [exact Hn|]. intros x. unfold hname, start_one. now destruct (hs_started x).
+    erewrite map_ext; [exact Hn|]. intros x. apply hname_start_one.
+  - destruct (first_unstarted st); [|assumption].
+    destruct (first_failing st (rev (pubdecs st))); [assumption|].
+    now destruct (first_failing st (subdecs st)).
+  - destruct (pending_of st pn); [|assumption]. unfold names. simpl. rewrite map_map.
+    erewrite map_ext; [exact Hn|]. intros x. apply hname_snap_one.
   - destruct (find_handler sn st) as [[c [s|]]|]; try assumption. unfold names. simpl. now apply names_filter.
 Qed.
 
@@ -328,10 +343,13 @@ Theorem mws_all ops : mws (exec rinit ops) = regs_of ops.
 Proof.
   induction ops as [|o ops IH] using rev_ind; [reflexivity|]. rewrite exec_snoc.
   unfold regs_of. rewrite flat_map_app. fold (regs_of ops). rewrite <- IH. simpl.
-  destruct o as [h|id app|hn id app|dd ff|dd ff| |sn|dl]; simpl; rewrite ?app_nil_r; try reflexivity.
+  destruct o as [h|id app|hn id app|dd ff|dd ff| | |pn|sn|dl]; simpl; rewrite ?app_nil_r; try reflexivity.
   - now destruct (find_handler (h_name h) (exec rinit ops)).
   - destruct (first_unstarted (exec rinit ops)); [|reflexivity].
     destruct (first_failing _ (rev _)); [reflexivity|]. now destruct (first_failing _ (subdecs _)).
+  - destruct (first_unstarted (exec rinit ops)); [|reflexivity].
+    destruct (first_failing _ (rev _)); [reflexivity|]. now destruct (first_failing _ (subdecs _)).
+  - now destruct (pending_of (exec rinit ops) pn).
   - now destruct (find_handler sn (exec rinit ops)) as [[c [s|]]|].
 Qed.
 
@@ -340,15 +358,22 @@ Theorem started_frozen st o n h s :
   find_handler n st = Some (HS h (Some s)) -> o <> OStop n ->
   find_handler n (step st o) = Some (HS h (Some s)).
 Proof.
-  intros F Ho. destruct o as [h'|id app|hn id app|dd ff|dd ff| |sn|dl]; simpl; try assumption.
+  intros F Ho. destruct o as [h'|id app|hn id app|dd ff|dd ff| | |pn|sn|dl]; simpl; try assumption.
   - destruct (find_handler (h_name h') st); [assumption|]. unfold find_handler in *. simpl.
     rewrite find_snoc, F. reflexivity.
   - destruct (first_unstarted st); [|assumption].
     destruct (first_failing st (rev (pubdecs st))); [assumption|].
     destruct (first_failing st (subdecs st)); [assumption|].
     unfold find_handler in *. simpl. rewrite find_map_inv.
-    2:{ intros x. unfold name_is, start_one. now destruct (hs_started x). }
+    2:{ intros x. unfold name_is, start_one. now destruct (waiting st x). }
     rewrite F. reflexivity.
+  - destruct (first_unstarted st); [|assumption].
+    destruct (first_failing st (rev (pubdecs st))); [assumption|].
+    now destruct (first_failing st (subdecs st)).
+  - destruct (pending_of st pn); [|assumption].
+    unfold find_handler in *. simpl. rewrite find_map_inv.
+    2:{ intros x. unfold snap_one. destruct (name_is pn x && unstarted x); reflexivity. }
+    rewrite F. simpl. unfold snap_one. simpl. now rewrite andb_false_r.
   - destruct (find_handler sn st) as [[c [s'|]]|] eqn:Fs; try assumption.
     unfold find_handler in *. simpl.
     assert (sn <> n) by (intros ->; now apply Ho).
@@ -375,8 +400,7 @@ Proof.
     destruct H as [H|[H1 H2]]; [now rewrite H|now rewrite H1, H2].
   - intros H1 H2. simpl. destruct (first_unstarted st) eqn:Fu; [now rewrite H1, H2|].
     symmetry. erewrite map_ext_in; [apply map_id|]. intros hs Hin. unfold start_one.
-    unfold first_unstarted in Fu. apply (find_none _ _ Fu) in Hin. unfold unstarted in Hin.
-    now destruct (hs_started hs).
+    unfold first_unstarted in Fu. apply (find_none _ _ Fu) in Hin. now rewrite Hin.
 Qed.
 
 (** * Part 3: every delivery of every program is accepted by the property acceptors *)
@@ -446,7 +470,7 @@ Lemma prog_ok_run (same : list ev -> list ev -> bool) (Hrefl : forall t, same t 
 Proof.
   induction ops as [|o ops IH]; intros pre Hp; [reflexivity|].
   assert (Hp' : plain ((pre ++ [o]) ++ ops) = true) by now rewrite <- app_assoc.
-  destruct o as [h|id app|hn id app|dd ff|dd ff| |sn|d]; cbn [run prog_ok]; try (rewrite <- exec_snoc; now apply IH).
+  destruct o as [h|id app|hn id app|dd ff|dd ff| | |pn|sn|d]; cbn [run prog_ok]; try (rewrite <- exec_snoc; now apply IH).
   apply plain_app in Hp as [Hpre _].
   rewrite (deliver_ok same Hrefl pre _ d (exec_inv pre Hpre)). cbn [andb].
   specialize (IH (pre ++ [ODeliver d]) Hp'). now rewrite exec_snoc in IH.
@@ -473,7 +497,7 @@ Lemma prog_ok_st_run (same : list ev -> list ev -> bool) (Hrefl : forall t, same
   forall ops st, NoDup (names st) -> prog_ok_st same st ops (run st ops) = true.
 Proof.
   induction ops as [|o ops IH]; intros st Hn; [reflexivity|].
-  destruct o as [h|id app|hn id app|dd ff|dd ff| |sn|d]; cbn [run prog_ok_st];
+  destruct o as [h|id app|hn id app|dd ff|dd ff| | |pn|sn|d]; cbn [run prog_ok_st];
     try (apply IH; now apply step_nodup).
   rewrite (deliver_ok_st same Hrefl st d Hn). cbn [andb]. now apply IH.
 Qed.
@@ -853,3 +877,332 @@ Qed.
 
 Lemma c09_order h s d : c09_proj (dispatch h s d) = spec_order h s d.
 Proof. rewrite dispatch_spec. apply spec_trace_order. Qed.
+
+(** * Round "proofs": retried RunHandlers decorates once (repaired); the pinned behaviour is refuted *)
+Lemma step_residue st o : residue st = [] -> residue (step st o) = [].
+Proof.
+  intros H. destruct o as [h|id app|hn id app|dd ff|dd ff| | |pn|sn|dl]; simpl; try assumption.
+  - now destruct (find_handler (h_name h) st).
+  - destruct (first_unstarted st); [|assumption].
+    destruct (first_failing st (rev (pubdecs st))); [assumption|].
+    now destruct (first_failing st (subdecs st)).
+  - destruct (first_unstarted st); [|assumption].
+    destruct (first_failing st (rev (pubdecs st))); [assumption|].
+    now destruct (first_failing st (subdecs st)).
+  - now destruct (pending_of st pn).
+  - now destruct (find_handler sn st) as [[c [s|]]|].
+Qed.
+Theorem residue_empty_all ops : residue (exec rinit ops) = [].
+Proof.
+  induction ops as [|o ops IH] using rev_ind; [reflexivity|]. rewrite exec_snoc. now apply step_residue.
+Qed.
+(** so what a handler freezes when it is finally started is exactly the decorator lists of that moment *)
+Theorem start_one_no_residue ops hs : hs_started hs = None -> waiting (exec rinit ops) hs = true ->
+  start_one (exec rinit ops) hs =
+  HS (hs_cfg hs) (Some (ST (mws (exec rinit ops)) (pubdecs (exec rinit ops)) (subdecs (exec rinit ops)))).
+Proof.
+  intros H Hw. unfold start_one, frozen_decs, residue_of. rewrite Hw, residue_empty_all. simpl. now rewrite app_nil_r.
+Qed.
+
+Definition pinned_witness : list op :=
+  [OAddHandler (HC 10 1 7 20 (PReal 1 8) 30 1); OStart;
+   OAddPubDec 50 0; OAddSubDec 62 1; OAddHandler (HC 12 1 7 22 (PReal 1 8) 33 3); OStart; OStart].
+Lemma retry_pinned_refuted :
+  let d := DL 1 22 cx0 (0%N, false) (Ret [1%N]) PubAccept in
+  map (fun p => c09_proj (snd p)) (deliver (exec_pinned rinit pinned_witness) d)
+    = [[OSub 62 (CX 12 8 7 22 33); OFn; OPubDec 50; OPubDec 50; OPub]]
+  /\ map (fun p => c09_proj (snd p)) (deliver (exec rinit pinned_witness) d)
+    = [[OSub 62 (CX 12 8 7 22 33); OFn; OPubDec 50; OPub]].
+Proof. split; reflexivity. Qed.
+
+(** * Round "proofs": the linearisation point of a handler's start with respect to registrations *)
+
+Lemma find_filter_other {A} (f g : A -> bool) l :
+  (forall x, f x = true -> g x = true) -> find f (filter g l) = find f l.
+Proof.
+  intros H. induction l as [|a l IH]; simpl; [reflexivity|].
+  destruct (g a) eqn:G; simpl.
+  - now destruct (f a).
+  - destruct (f a) eqn:F; [|assumption]. apply H in F. congruence.
+Qed.
+
+Lemma find_handler_name n st hs : find_handler n st = Some hs -> h_name (hs_cfg hs) = n.
+Proof. intros F. apply find_some in F as [_ F]. now apply N.eqb_eq in F. Qed.
+
+(** while handler n's goroutine has not reached its copy, nothing but that copy changes its status *)
+Lemma pending_kept st o n h decs :
+  pending_of st n = Some decs -> find_handler n st = Some (HS h None) -> o <> OSnap n ->
+  pending_of (step st o) n = Some decs /\ find_handler n (step st o) = Some (HS h None).
+Proof.
+  intros P F Ho. pose proof (find_handler_name _ _ _ F) as Hname. simpl in Hname.
+  destruct o as [h'|id app|hn id app|dd ff|dd ff| | |pn|sn|dl]; simpl; try (split; assumption).
+  - destruct (find_handler (h_name h') st); [split; assumption|]. split; [assumption|].
+    unfold find_handler in *. simpl. now rewrite find_snoc, F.
+  - destruct (first_unstarted st); [|split; assumption].
+    destruct (first_failing st (rev (pubdecs st))); [split; assumption|].
+    destruct (first_failing st (subdecs st)); [split; assumption|]. split; [assumption|].
+    unfold find_handler in *. simpl. rewrite find_map_inv.
+    2:{ intros x. unfold name_is, start_one. now destruct (waiting st x). }
+    rewrite F. simpl. unfold start_one, waiting, is_pending. simpl. rewrite Hname, P. reflexivity.
+  - destruct (first_unstarted st); [|split; assumption].
+    destruct (first_failing st (rev (pubdecs st))); [split; assumption|].
+    destruct (first_failing st (subdecs st)); [split; assumption|]. split; [|assumption].
+    unfold pending_of in *. simpl.
+    destruct (find (fun p => N.eqb (fst p) n) (pending st)) eqn:E; [|discriminate].
+    now rewrite (find_app_some _ _ _ _ E).
+  - assert (Hpn : pn <> n) by (intros ->; now apply Ho).
+    destruct (pending_of st pn) as [decs'|]; [|split; assumption]. split.
+    + unfold pending_of in *. simpl. rewrite find_filter_other; [assumption|].
+      intros x Hx. apply N.eqb_eq in Hx. apply negb_true_iff, N.eqb_neq. congruence.
+    + unfold find_handler in *. simpl. rewrite find_map_inv.
+      2:{ intros x. unfold snap_one. destruct (name_is pn x && unstarted x); reflexivity. }
+      rewrite F. simpl. unfold snap_one, name_is. simpl. rewrite Hname.
+      apply N.eqb_neq in Hpn. rewrite N.eqb_sym in Hpn. now rewrite Hpn.
+  - destruct (find_handler sn st) as [[c [s'|]]|] eqn:Fs; try (split; assumption). split; [assumption|].
+    assert (sn <> n). { intros ->. rewrite F in Fs. discriminate. }
+    unfold find_handler in *. simpl. rewrite find_filter_other; [assumption|].
+    intros x Hx. unfold name_is in *. apply N.eqb_eq in Hx. apply negb_true_iff, N.eqb_neq. congruence.
+Qed.
+
+(** the copy: handler n holds the registrations of THAT moment, with the decorator lists it froze at its start *)
+Lemma snap_takes st n h decs :
+  pending_of st n = Some decs -> find_handler n st = Some (HS h None) ->
+  find_handler n (step st (OSnap n)) = Some (HS h (Some (ST (mws st) (fst decs) (snd decs)))).
+Proof.
+  intros P F. pose proof (find_handler_name _ _ _ F) as Hname. simpl in Hname.
+  simpl. rewrite P. unfold find_handler in *. simpl. rewrite find_map_inv.
+  2:{ intros x. unfold snap_one. destruct (name_is n x && unstarted x); reflexivity. }
+  rewrite F. simpl. unfold snap_one, name_is. simpl. now rewrite Hname, N.eqb_refl.
+Qed.
+
+Lemma mws_step st o : mws (step st o) = mws st ++ regs_of [o].
+Proof.
+  destruct o as [h|id app|hn id app|dd ff|dd ff| | |pn|sn|dl]; simpl; rewrite ?app_nil_r; try reflexivity.
+  - now destruct (find_handler (h_name h) st).
+  - destruct (first_unstarted st); [|reflexivity].
+    destruct (first_failing _ (rev _)); [reflexivity|]. now destruct (first_failing _ (subdecs _)).
+  - destruct (first_unstarted st); [|reflexivity].
+    destruct (first_failing _ (rev _)); [reflexivity|]. now destruct (first_failing _ (subdecs _)).
+  - now destruct (pending_of st pn).
+  - now destruct (find_handler sn st) as [[c [s|]]|].
+Qed.
+Lemma mws_exec ops : forall st, mws (exec st ops) = mws st ++ regs_of ops.
+Proof.
+  induction ops as [|o ops IH]; intros st; [simpl; now rewrite app_nil_r|].
+  change (exec st (o :: ops)) with (exec (step st o) ops). rewrite IH, mws_step.
+  change (o :: ops) with ([o] ++ ops). unfold regs_of. rewrite flat_map_app. now rewrite app_assoc.
+Qed.
+
+Lemma frozen_exec post : forall st n h s,
+  find_handler n st = Some (HS h (Some s)) -> Forall (fun o => o <> OStop n) post ->
+  find_handler n (exec st post) = Some (HS h (Some s)).
+Proof.
+  induction post as [|o post IH]; intros st n h s F Hp; [assumption|]. inversion Hp; subst. simpl.
+  apply IH; [|assumption]. now apply started_frozen.
+Qed.
+
+(** THE THEOREM.  Handler n was started by a RunHandlers (its decorator lists [decs] are frozen) and its
+    goroutine has not yet copied r.middlewares.  Whatever happens before the copy ([mid]: registrations,
+    other starts, stops, failing attempts, other handlers' copies) and after it ([post], short of its own
+    Stop): its chain is built from exactly the registrations made BEFORE the copy — those of [mid]
+    included, those of [post] excluded —, in order. *)
+Theorem snapshot_linearisation mid : forall st n h decs post,
+  pending_of st n = Some decs -> find_handler n st = Some (HS h None) ->
+  Forall (fun o => o <> OSnap n) mid -> Forall (fun o => o <> OStop n) post ->
+  find_handler n (exec st (mid ++ OSnap n :: post)) =
+  Some (HS h (Some (ST (mws st ++ regs_of mid) (fst decs) (snd decs)))).
+Proof.
+  induction mid as [|o mid IH]; intros st n h decs post P F Hm Hp.
+  - change (exec st ([] ++ OSnap n :: post)) with (exec (step st (OSnap n)) post).
+    unfold regs_of. simpl. rewrite app_nil_r. apply frozen_exec; [|assumption]. now apply snap_takes.
+  - inversion Hm as [|? ? Ho Hm']; subst.
+    destruct (pending_kept st o n h decs P F Ho) as [P' F'].
+    change (exec st ((o :: mid) ++ OSnap n :: post)) with (exec (step st o) (mid ++ OSnap n :: post)).
+    rewrite (IH (step st o) n h decs post P' F' Hm' Hp), mws_step.
+    change (o :: mid) with ([o] ++ mid). unfold regs_of. rewrite flat_map_app. now rewrite app_assoc.
+Qed.
+
+(** how a handler gets there: a RunHandlers in which no constructor fails leaves every waiting handler
+    pending with the decorator lists of that moment *)
+Lemma find_map_filter_first st (l : list hstate) n hs :
+  NoDup (map hname l) -> In hs l -> hname hs = n -> waiting st hs = true ->
+  find (fun p => N.eqb (fst p) n)
+       (map (fun hs => (h_name (hs_cfg hs), frozen_decs st hs)) (filter (waiting st) l))
+  = Some (n, frozen_decs st hs).
+Proof.
+  induction l as [|a l IH]; simpl; [tauto|]. intros Hn Hin Hname Hw. inversion Hn as [|? ? Ha Hl]; subst.
+  destruct Hin as [->|Hin].
+  - rewrite Hw. simpl. unfold hname. now rewrite N.eqb_refl.
+  - destruct (waiting st a); simpl; [|now apply IH].
+    destruct (N.eqb (h_name (hs_cfg a)) (hname hs)) eqn:E; [|now apply IH].
+    apply N.eqb_eq in E. exfalso. apply Ha. fold (hname a) in E. rewrite E. now apply in_map.
+Qed.
+
+Lemma find_app_none {A} (f : A -> bool) l1 l2 : find f l1 = None -> find f (l1 ++ l2) = find f l2.
+Proof. induction l1 as [|a l1 IH]; simpl; [reflexivity|]. destruct (f a); [discriminate|assumption]. Qed.
+
+Theorem async_start_pending st hs :
+  NoDup (names st) -> In hs (handlers st) -> waiting st hs = true ->
+  first_failing st (rev (pubdecs st)) = None -> first_failing st (subdecs st) = None ->
+  pending_of (step st OStartAsync) (hname hs) = Some (frozen_decs st hs)
+  /\ find_handler (hname hs) (step st OStartAsync) = Some hs
+  /\ mws (step st OStartAsync) = mws st.
+Proof.
+  intros Hn Hin Hw H1 H2. simpl.
+  destruct (first_unstarted st) eqn:Fu.
+  2:{ unfold first_unstarted in Fu. apply (find_none _ _ Fu) in Hin. congruence. }
+  rewrite H1, H2. simpl. split; [|split; [|reflexivity]].
+  - unfold pending_of. simpl.
+    assert (Hnp : find (fun p => N.eqb (fst p) (hname hs)) (pending st) = None).
+    { unfold waiting, is_pending, pending_of in Hw. apply andb_true_iff in Hw as [_ Hw]. fold (hname hs) in Hw.
+      destruct (find (fun p => N.eqb (fst p) (hname hs)) (pending st)); [discriminate|reflexivity]. }
+    rewrite (find_app_none _ _ _ Hnp). now rewrite (find_map_filter_first st (handlers st) (hname hs) hs Hn Hin eq_refl Hw).
+  - now apply find_in_nodup.
+Qed.
+
+(** the synchronous [OStart] of the sequential programs = an asynchronous start whose copy follows at once *)
+Theorem start_is_async_then_snap st hs :
+  NoDup (names st) -> In hs (handlers st) -> waiting st hs = true ->
+  first_failing st (rev (pubdecs st)) = None -> first_failing st (subdecs st) = None ->
+  find_handler (hname hs) (step (step st OStartAsync) (OSnap (hname hs))) = find_handler (hname hs) (step st OStart).
+Proof.
+  intros Hn Hin Hw H1 H2.
+  destruct (async_start_pending st hs Hn Hin Hw H1 H2) as (P & F & M).
+  assert (Hs : hs_started hs = None).
+  { unfold waiting, unstarted in Hw. destruct (hs_started hs); [discriminate|reflexivity]. }
+  destruct hs as [c s0]. simpl in Hs. subst s0.
+  rewrite (snap_takes _ _ _ _ P F), M. simpl.
+  destruct (first_unstarted st) eqn:Fu.
+  2:{ unfold first_unstarted in Fu. apply (find_none _ _ Fu) in Hin. congruence. }
+  rewrite H1, H2. unfold find_handler. simpl. rewrite find_map_inv.
+  2:{ intros x. unfold name_is, start_one. now destruct (waiting st x). }
+  pose proof (find_in_nodup _ _ Hn Hin) as F0. rewrite F0. simpl. unfold start_one. now rewrite Hw.
+Qed.
+
+(** * Round "proofs": for ALL programs (Stop, re-added names, failing constructors, asynchronous starts)
+    what a started handler holds is the registrations of a PREFIX of the program *)
+Definition is_prefix {A} (p l : list A) : Prop := exists suf, l = p ++ suf.
+Lemma is_prefix_refl {A} (l : list A) : is_prefix l l.
+Proof. exists []. now rewrite app_nil_r. Qed.
+Lemma is_prefix_snoc {A} (p l : list A) x : is_prefix p l -> is_prefix p (l ++ [x]).
+Proof. intros [suf ->]. exists (suf ++ [x]). now rewrite app_assoc. Qed.
+
+Definition holds_prefix (ops : list op) (hs : hstate) : Prop :=
+  In (OAddHandler (hs_cfg hs)) ops /\
+  match hs_started hs with
+  | None => True
+  | Some s => exists pre0 o0 pre1 o1, is_prefix pre0 pre1 /\ is_prefix (pre0 ++ [o0]) ops /\ is_prefix (pre1 ++ [o1]) ops
+                /\ (o0 = OStart \/ o0 = OStartAsync) /\ (o1 = OStart \/ o1 = OSnap (h_name (hs_cfg hs)))
+                /\ s_chain s = regs_of pre1 /\ s_pubdecs s = pdecs_of pre0 /\ s_subdecs s = sdecs_of pre0
+  end.
+Definition pending_prefix (ops : list op) (p : N * (list N * list N)) : Prop :=
+  exists pre0, is_prefix (pre0 ++ [OStartAsync]) ops /\ snd p = (pdecs_of pre0, sdecs_of pre0).
+
+Record pinv (ops : list op) (st : rstate) : Prop := {
+  pi_h : Forall (holds_prefix ops) (handlers st);
+  pi_p : Forall (pending_prefix ops) (pending st);
+  pi_m : mws st = regs_of ops;
+  pi_pd : pubdecs st = pdecs_of ops;
+  pi_sd : subdecs st = sdecs_of ops;
+  pi_r : residue st = [] }.
+
+Lemma holds_prefix_snoc ops o hs : holds_prefix ops hs -> holds_prefix (ops ++ [o]) hs.
+Proof.
+  intros [Hin H]. split; [apply in_or_app; now left|]. destruct (hs_started hs); [|exact I].
+  destruct H as (p0 & o0 & p1 & o1 & H0 & H1 & H1' & H2). exists p0, o0, p1, o1.
+  split; [assumption|]. split; [now apply is_prefix_snoc|]. split; [now apply is_prefix_snoc|assumption].
+Qed.
+Lemma pending_prefix_snoc ops o p : pending_prefix ops p -> pending_prefix (ops ++ [o]) p.
+Proof. intros (p0 & H0 & H1). exists p0. split; [now apply is_prefix_snoc|assumption]. Qed.
+
+Lemma pinv_step ops st o : pinv ops st -> pinv (ops ++ [o]) (step st o).
+Proof.
+  intros [Hh Hp Hm Hpd Hsd Hr].
+  assert (Hh' : Forall (holds_prefix (ops ++ [o])) (handlers st)).
+  { eapply Forall_impl; [|exact Hh]. intros a. apply holds_prefix_snoc. }
+  assert (Hp' : Forall (pending_prefix (ops ++ [o])) (pending st)).
+  { eapply Forall_impl; [|exact Hp]. intros a. apply pending_prefix_snoc. }
+  assert (Er : forall o', regs_of (ops ++ [o']) = regs_of ops ++ regs_of [o']) by (intros; apply flat_map_app).
+  assert (Epd : forall o', pdecs_of (ops ++ [o']) = pdecs_of ops ++ pdecs_of [o']) by (intros; apply flat_map_app).
+  assert (Esd : forall o', sdecs_of (ops ++ [o']) = sdecs_of ops ++ sdecs_of [o']) by (intros; apply flat_map_app).
+  assert (Hsame : forall o', regs_of [o'] = [] -> pdecs_of [o'] = [] -> sdecs_of [o'] = [] ->
+             pinv (ops ++ [o']) st -> True) by (intros; exact I).
+  assert (Hkeep : regs_of [o] = [] -> pdecs_of [o] = [] -> sdecs_of [o] = [] ->
+                  forall pf, pinv (ops ++ [o]) (RS (handlers st) (mws st) (pubdecs st) (subdecs st) pf (residue st) (pending st))).
+  { intros E1 E2 E3 pf. split; simpl; try assumption.
+    - now rewrite Er, E1, app_nil_r. - now rewrite Epd, E2, app_nil_r. - now rewrite Esd, E3, app_nil_r. }
+  assert (Hst : regs_of [o] = [] -> pdecs_of [o] = [] -> sdecs_of [o] = [] -> pinv (ops ++ [o]) st).
+  { intros E1 E2 E3. destruct st. apply (Hkeep E1 E2 E3). }
+  destruct o as [h|id app|hn id app|dd ff|dd ff| | |pn|sn|dl]; simpl.
+  - destruct (find_handler (h_name h) st); [now apply Hst|].
+    split; simpl; try assumption; [|now rewrite Er, app_nil_r|now rewrite Epd, app_nil_r|now rewrite Esd, app_nil_r].
+    apply Forall_app. split; [assumption|]. constructor; [|constructor]. split; [|exact I].
+    apply in_or_app. right. now left.
+  - split; simpl; try assumption; [now rewrite Er, Hm|now rewrite Epd, app_nil_r|now rewrite Esd, app_nil_r].
+  - split; simpl; try assumption; [now rewrite Er, Hm|now rewrite Epd, app_nil_r|now rewrite Esd, app_nil_r].
+  - split; simpl; try assumption; [now rewrite Er, app_nil_r|now rewrite Epd, Hpd|now rewrite Esd, app_nil_r].
+  - split; simpl; try assumption; [now rewrite Er, app_nil_r|now rewrite Epd, app_nil_r|now rewrite Esd, Hsd].
+  - (* Start *)
+    destruct (first_unstarted st); [|now apply Hst].
+    destruct (first_failing st (rev (pubdecs st))); [now apply Hkeep|].
+    destruct (first_failing st (subdecs st)); [now apply Hkeep|].
+    split; simpl; try assumption; try reflexivity;
+      [|now rewrite Er, app_nil_r|now rewrite Epd, app_nil_r|now rewrite Esd, app_nil_r].
+    apply Forall_forall. intros x Hx. apply in_map_iff in Hx as (hs & <- & Hin).
+    rewrite Forall_forall in Hh'. specialize (Hh' hs Hin). unfold start_one.
+    destruct (waiting st hs); [|assumption]. destruct Hh' as [Hadd _]. split; [exact Hadd|]. simpl.
+    exists ops, OStart, ops, OStart. unfold residue_of. rewrite Hr. simpl. rewrite app_nil_r.
+    repeat split; try apply is_prefix_refl; try assumption; now left.
+  - (* StartAsync *)
+    destruct (first_unstarted st); [|now apply Hst].
+    destruct (first_failing st (rev (pubdecs st))); [now apply Hkeep|].
+    destruct (first_failing st (subdecs st)); [now apply Hkeep|].
+    split; simpl; try assumption; try reflexivity;
+      [|now rewrite Er, app_nil_r|now rewrite Epd, app_nil_r|now rewrite Esd, app_nil_r].
+    apply Forall_app. split; [assumption|]. apply Forall_forall. intros x Hx.
+    apply in_map_iff in Hx as (hs & <- & _). exists ops. split; [apply is_prefix_refl|].
+    simpl. unfold frozen_decs, residue_of. rewrite Hr. simpl. now rewrite app_nil_r, Hpd, Hsd.
+  - (* Snap *)
+    destruct (pending_of st pn) as [decs|] eqn:P; [|now apply Hst].
+    assert (Hd : exists pre0, is_prefix (pre0 ++ [OStartAsync]) ops /\ decs = (pdecs_of pre0, sdecs_of pre0)).
+    { unfold pending_of in P. destruct (find (fun p => N.eqb (fst p) pn) (pending st)) eqn:F; [|discriminate].
+      injection P as <-. apply find_some in F as [Hin _]. rewrite Forall_forall in Hp. now apply Hp. }
+    destruct Hd as (pre0 & Hpre0 & ->).
+    split; simpl; try assumption; [| |now rewrite Er, app_nil_r|now rewrite Epd, app_nil_r|now rewrite Esd, app_nil_r].
+    + apply Forall_forall. intros x Hx. apply in_map_iff in Hx as (hs & <- & Hin).
+      rewrite Forall_forall in Hh'. specialize (Hh' hs Hin). unfold snap_one.
+      destruct (name_is pn hs && unstarted hs) eqn:En; [|assumption]. destruct Hh' as [Hadd _]. split; [exact Hadd|]. simpl.
+      apply andb_true_iff in En as [En _]. apply N.eqb_eq in En.
+      exists pre0, OStartAsync, ops, (OSnap pn). rewrite En.
+      repeat split; try assumption; try reflexivity; try (now right); try apply is_prefix_refl.
+      * destruct Hpre0 as [suf ->]. exists ([OStartAsync] ++ suf). now rewrite <- app_assoc.
+      * now apply is_prefix_snoc.
+    + rewrite Forall_forall in *. intros x Hx. apply filter_In in Hx as [Hx _]. now apply Hp'.
+  - (* Stop *)
+    destruct (find_handler sn st) as [[c [s|]]|]; try (now apply Hst).
+    split; simpl; try assumption; [|now rewrite Er, app_nil_r|now rewrite Epd, app_nil_r|now rewrite Esd, app_nil_r].
+    rewrite Forall_forall in *. intros x Hx. apply filter_In in Hx as [Hx _]. now apply Hh'.
+  - now apply Hst.
+Qed.
+
+Theorem pinv_all ops : pinv ops (exec rinit ops).
+Proof.
+  induction ops as [|o ops IH] using rev_ind.
+  - split; try reflexivity; constructor.
+  - rewrite exec_snoc. now apply pinv_step.
+Qed.
+
+(** exported form *)
+Theorem started_holds_prefix ops n h s :
+  find_handler n (exec rinit ops) = Some (HS h (Some s)) ->
+  In (OAddHandler h) ops /\
+  exists pre0 o0 pre1 o1, is_prefix pre0 pre1 /\ is_prefix (pre0 ++ [o0]) ops /\ is_prefix (pre1 ++ [o1]) ops
+    /\ (o0 = OStart \/ o0 = OStartAsync) /\ (o1 = OStart \/ o1 = OSnap (h_name h))
+    /\ s_chain s = regs_of pre1 /\ s_pubdecs s = pdecs_of pre0 /\ s_subdecs s = sdecs_of pre0.
+Proof.
+  intros F. destruct (pinv_all ops) as [Hh _ _ _ _ _]. apply find_some in F as [Hin _].
+  rewrite Forall_forall in Hh. exact (Hh _ Hin).
+Qed.
+Theorem decorators_all ops :
+  pubdecs (exec rinit ops) = pdecs_of ops /\ subdecs (exec rinit ops) = sdecs_of ops.
+Proof. destruct (pinv_all ops) as [_ _ _ H1 H2 _]. now split. Qed.
